@@ -341,11 +341,9 @@ def run(ck, m):
     allowed = {f"{CM}::BaseImage.size#2", f"{CM}::BaseImage.set_size", "widget/_urwid.py::UrwidImage.render", f"{CM}::BaseImage.size"}
     ck.ob("R6", rn, writers <= allowed, f"`_size` is written in {sorted(writers - allowed)}; only the size setter, set_size and (documented) UrwidImage.render may", stmt="writers of _size")
     # ---- shared with C09.R5: frames served from ImageIterator's cache are the frames a fresh render would give
-    from tiv.report import Scoped
+    from tiv.report import borrow
     import rules.c09 as c09
-    sc9 = Scoped(ck, "R4", lambda c: c.endswith("ImageIterator._animate"), rids={"R5"})
-    c09.run(sc9, m)
-    ck.expect(sc9.kept >= 4, f"expected the ImageIterator cache obligations of C09.R5 (got {sc9.kept})")
+    borrow(ck, c09, m, "R4", lambda c: c.endswith("ImageIterator._animate"), rids={"R5"}, min_kept=4)
 
 
 def _anc(n):
